@@ -652,3 +652,31 @@ PLANS["C13"] = generic(
     "predecessor outcome).",
     n_quick=320, n_thorough=24_000, min_evaluations=300_000, needs_ref=False, post=c13_post,
 )
+
+
+PLANS["C14"] = generic(
+    "c14",
+    rule="a type zoo derived with serde_derive (named/tuple/newtype/unit structs; enums with unit/newtype/tuple/struct variants, externally, "
+    "internally and adjacently tagged and untagged; Option<Option<T>>; tuples to arity 6 and fixed arrays; Vec; BTreeMap/HashMap<String,_>; char "
+    "incl. astral; String; a serialize_bytes wrapper; i8..i64/u8..u64 at MIN/MAX/0/+-1 and random; f32/f64 incl. NaN, +-inf, -0.0, subnormals; "
+    "unit; bool; flatten; rename; nested 5 deep). Serialisation: Variable::from_serializable / to_jmespath / search(value) must give exactly the "
+    "JSON image serde_json::to_value gives (or both fail). Deserialisation: T::deserialize(library value) vs serde_json::from_value::<T>(same JSON) "
+    "— both Ok and equal, or both Err — on each type's own images AND on every type x a pool of 82 foreign JSON shapes (wrong arity, 0/2-key maps "
+    "for enums, floats for integers, out-of-range integers, missing/extra fields). Non-trivial = a deserialisation both sides accepted with equal "
+    "values; distinct by (type, JSON).",
+    n_quick=340_000, n_thorough=17_000_000, min_evaluations=300_000, needs_ref=False,
+    assumptions=["not asserted: maps with non-string keys, 128-bit integers, borrowed &str/&[u8] targets (outside the statement)", "serde_json is the definition"],
+)
+
+PLANS["C15"] = generic(
+    "c15",
+    rule="histories of 30 operations on a Runtime (register a recording closure with a unique id / register a CustomFunction with one of 4 "
+    "signatures / deregister / register_builtin_functions / Runtime::new) over 8 names (4 built-in names, 4 others); after EVERY operation every "
+    "name is probed: get_function(name).is_some() and a call with 0..3 random arguments (current node, literals, fields, expression references), "
+    "bare, after a pipe or after a sub-expression. A 15-line sequential model predicts: which id runs (exactly one invocation, result and log), "
+    "unknown-function otherwise, deregister's return value, the built-in's behaviour (reference functions), and for signed functions invocation "
+    "iff an independent signature check accepts (else the error class, and no invocation). Logged arguments must equal the separately evaluated "
+    "argument expressions in source order with expression references passed unevaluated (tree shape compared); plus a call-order probe with "
+    "recording functions as arguments (incl. inside a projection). Non-trivial = modelled custom invocation or rejection; distinct by (history, call).",
+    n_quick=4_800, n_thorough=480_000, min_evaluations=300_000,
+)
